@@ -253,7 +253,7 @@ def check_rm(ctx, drv):
     # 1. design level.  The repaired protocol (caller always answered) is deadlock-free and refines the counting
     #    object for ALL interleavings incl. cancel-before-request, concurrent cancel and Close racing with calls;
     #    the protocol AS IT IS is fine under the strict calling discipline ...
-    mc(ctx, "MC_LimitsRM", "MC_LimitsRM_fixed.cfg", timeout=2400)
+    mc(ctx, "MC_LimitsRM", ctx.pick("MC_LimitsRM_fixedq.cfg", "MC_LimitsRM_fixed.cfg"), timeout=2400)
     mc(ctx, "MC_LimitsRM", "MC_LimitsRM_asis_disc.cfg", timeout=900)
     if not ctx.quick():
         mc(ctx, "MC_LimitsRM", "MC_LimitsRM_fixed5.cfg", timeout=1500)
@@ -361,10 +361,10 @@ def cache_describe(t, pos, tag):
 
 def check_cache(ctx, drv):
     # design level: the repaired two-lock model keeps every invariant and refines the cache object ...
-    mc(ctx, "MC_LimitsCache", "MC_LimitsCache_q1.cfg", timeout=2400)
     mc(ctx, "MC_LimitsCache", "MC_LimitsCache_zero.cfg", timeout=2400)
     mc(ctx, "MC_LimitsCache", "MC_LimitsCache_q3.cfg", timeout=2400)
     if not ctx.quick():
+        mc(ctx, "MC_LimitsCache", "MC_LimitsCache_q1.cfg", timeout=2400)
         mc(ctx, "MC_LimitsCache", "MC_LimitsCache_q2.cfg", timeout=1500)
         mc(ctx, "MC_LimitsCache", "MC_LimitsCache_zero_ttl.cfg", timeout=1500)
         mc(ctx, "MC_LimitsCache", "MC_LimitsCache_asis_fits.cfg", timeout=1500)
@@ -421,7 +421,7 @@ def addr_describe(t, pos, tag):
 
 
 def check_addr(ctx, drv):
-    mc(ctx, "MC_LimitsAddr", "MC_LimitsAddr.cfg", timeout=600)
+    mc(ctx, "MC_LimitsAddr", ctx.pick("MC_LimitsAddr.cfg", "MC_LimitsAddr_push3.cfg"), timeout=600)
     mc(ctx, "MC_LimitsAddr", "MC_LimitsAddr_zero.cfg", timeout=600)
     out, crashes = run_driver(ctx, drv, "addr", "", ctx.pick(200, 2000), ctx.pick(25, 40), 40)
     traces = addr_prepare(read_traces(out))
